@@ -167,10 +167,57 @@ def run_shard(campaign, shard, nshards, seed, tier):
                     part.violation('correspondence', campaign, 'corr:huge', 'model differs at op %d' % d, pr.case,
                                    {'impl_line': pr.lines[d], 'model_line': ml_[d], 'theorem_or_correspondence': THEOREMS})
             part.sample({'class': [tx_dl, mode, ml, pad], 'sizes': '2^16 2^24 2^32-1 2^32 2^32+1 2^40'})
+    elif campaign == 'standby':
+        # the rate limiter holds Single / First Frames in standby: the frames that finally go out are still the reference ones
+        k = 0
+        for tx_dl in (8, 16, 64):
+            for mode in ('Normal_11bits', 'Mixed_11bits'):
+                for n2 in (tx_dl - 1, tx_dl, 3 * tx_dl, 5 * tx_dl + 3):
+                    k += 1
+                    if k % nshards != shard:
+                        continue
+                    a = rand_address(rng, mode)
+                    params = {'tx_data_length': tx_dl, 'stmin': 0, 'rate_limit_enable': True, 'rate_limit_max_bitrate': tx_dl * 8 * 8,
+                              'rate_limit_window_size': 0.125, 'rx_flowcontrol_timeout': 10**6}
+                    if tx_dl > 8:
+                        params['can_fd'] = True
+                    inst = {'txa': a, 'rxa': None, 'params': params}
+                    setup_spec(m, inst)
+                    rid, ext, pfx = reach(inst)
+                    p1 = bytes(range(1, 4))
+                    p2 = bytes((7 * i + 1) & 0xFF for i in range(n2))
+                    pr = PeerRun([inst], links={0: 0})
+                    pr.send(0, hx(p1)); pr.proc(0)
+                    pr.send(0, hx(p2)); pr.proc(0)
+                    for step in range(400):
+                        pr.tick_all(rng.choice([1000000, 50 * 10**6, 126 * 10**6]))
+                        pr.proc(0)
+                        pr.op(0, 'rx', rid, int(ext), hx(pfx + bytes([0x30, 0, 0])))
+                        pr.proc(0)
+                        if not pr.impl[0].layer.transmitting():
+                            break
+                    pr.close()
+                    got = frames_of(pr)
+                    exp = m.query('seg - ' + hx(p1)).split() + m.query('seg - ' + hx(p2)).split()
+                    part.d['evaluations'] += 1
+                    part.distinct(('standby', tx_dl, mode, n2))
+                    part.hist('class', 'standby/tx_dl=%d' % tx_dl)
+                    if got != exp:
+                        kk = next((i for i in range(min(len(got), len(exp))) if got[i] != exp[i]), min(len(got), len(exp)))
+                        part.violation('oracle', campaign, 'C02:frame-differs-from-reference-segmentation',
+                                       'after a rate-limiter standby: frame %d is %s, reference %s' % (kk, got[kk] if kk < len(got) else None, exp[kk] if kk < len(exp) else None), pr.case)
+                        continue
+                    ml_ = m.run_case(pr.case)
+                    part.d['traces_validated'] += 1
+                    d = first_diff(pr.lines, ml_)
+                    if d is not None:
+                        part.violation('correspondence', campaign, 'corr:standby', 'model differs at op %d' % d, pr.case,
+                                       {'impl_line': pr.lines[d], 'model_line': ml_[d], 'theorem_or_correspondence': THEOREMS})
     return part.result()
 
 
 def run(ctx):
+    run_sharded(ctx, 'C02', 'standby')
     run_sharded(ctx, 'C02', 'lengths')
     run_sharded(ctx, 'C02', 'huge')
     ctx.exhaustive['payload lengths 1..N for every configuration class'] = True
